@@ -84,13 +84,8 @@ def _run_one(case):
                "outcome": "timeout", "nontrivial": False, "transitions": 1,
                "detail": f"timeout after {timeout}s"}
     except MemoryError:
-        import gc
-        gc.collect()
-        res = {"status": "cap", "key": "memory:" + json.dumps(case, default=str),
-               "outcome": "memory-limit", "nontrivial": False,
-               "transitions": 1,
-               "detail": "MemoryError under the per-worker address-space "
-                         "limit"}
+        res = None      # built below, after the frames of the failed
+        #                 evaluation have been released
     except Exception:
         res = {"status": "violation", "key": "exc:" + json.dumps(case, default=str),
                "outcome": "harness-exception", "nontrivial": False,
@@ -99,6 +94,13 @@ def _run_one(case):
     finally:
         if timeout:
             signal.alarm(0)
+    if res is None:
+        _free_memory()
+        res = {"status": "cap", "key": "memory:" + json.dumps(case, default=str),
+               "outcome": "memory-limit", "nontrivial": False,
+               "transitions": 1,
+               "detail": "MemoryError under the per-worker address-space "
+                         "limit"}
     if isinstance(res, dict):
         res = [res]
     wall = time.time() - t0
@@ -106,6 +108,24 @@ def _run_one(case):
         r["case"] = case
         r["wall"] = wall
     return res
+
+
+def _free_memory():
+    """release the evaluator's caches after a MemoryError"""
+    import gc
+    gc.collect()
+    try:
+        from .model import Model
+        for o in gc.get_objects():
+            if isinstance(o, Model):
+                o._cache.clear()
+                o.__dict__.pop("_tabcache", None)
+                o.__dict__.pop("_termcache", None)
+        from sympy.core.cache import clear_cache
+        clear_cache()
+    except Exception:  # noqa
+        pass
+    gc.collect()
 
 
 def _run_chunk(chunk):
